@@ -35,13 +35,13 @@ LEVEL_TEXT = ("Coq theorems over an exact-rational executable model of G_E_Pheno
               "every one of the nenv environments in force at the call is simulated (also after nenv was reassigned); a state machine over (protocol parameters, "
               "genomic model, population) for sessions on one protocol object, with theorems that every call's table is a function of the state in force at that call and its draws only "
               "(no dependence on history) and satisfies the single-call statements for the labels, genotypes, coefficients and design in force. The model is tied to the code "
-              "by evaluating it inside Coq against the implementation's outputs on generated trials/tables and whole sessions, and by 42 kernel expressions REGENERATED FROM THE SOURCE on every run "
+              "by evaluating it inside Coq against the implementation's outputs on generated trials/tables and whole sessions, and by 43 kernel expressions REGENERATED FROM THE SOURCE on every run "
               "(Gen/C14_Kernel.v: the record formula and its association, the block labels env+1/rep+1, the loop headers zip(range(nenv), nrep)/range(env_nrep), the refusal test len(nrep) < nenv with the "
               "call's argument order, which variance parameter scales which effect, the label columns, prefix/index/width of the generated TaxonNN/TraitN names in both protocols, (1-h2)/h2*var of both "
-              "heritability setters, the nenv setter's re-broadcast test and numpy.full arguments, the nrep/variance setters' numpy.full arguments, TruePhenotyping's group-column test, TrueBreedingValue's "
+              "heritability setters, the nenv setter's re-broadcast test and numpy.full arguments, the nrep/variance setters' numpy.full arguments, TruePhenotyping's group-column test and whether it copies the population's explicit taxa labels into the table (numpy.array(gvmat.taxa)), TrueBreedingValue's "
               "argument, the estimate's group-by key test, dropna/as_index/aggregation function, both from_numpy argument lists and the hash join's key/destination/source) that are proved equal to the hand "
               "model and about which the cell, calibration, re-broadcast and alignment theorems are restated (C14_kernel_*); scale covariance of the record formula and of the error variance; a small store model "
-              "of which label arrays a returned table shares with the population (G_E table isolated; TruePhenotyping table with explicit labels shares them: known finding)")
+              "of which label arrays a returned table shares with the population (a write into the taxa column of the G_E table and, since the repair of C14-truepheno-table-shares-labels, of the TruePhenotyping table with explicit or generated labels never reaches an array that existed before the call: proved at full strength, restated about the regenerated kernel, and probed on dedicated cases; the former sharing code is kept as old_tp_taxa_column with its refutation)")
 LEVEL_NOTE = ("trusted: Coq kernel + vm_compute; pandas groupby/mean, numpy matmul/var and the scale/unscale round trip of the breeding "
               "value matrices are compared within 2^-30 relative tolerance against the exact rational (summation order not modelled); "
               "numpy.random.Generator.multivariate_normal is trusted (scripted as mean + z*sqrt(diag cov) by the harness generator): "
@@ -63,7 +63,7 @@ RULE = ("case = trial (phased genotypes n in 1..12 incl. 10/11 for label widths,
         "variance vectors mixing zeros and non-zeros at every scale, 8 aliasing probes; sessions reuse ONE estimator object reconfigured through its setters, replace the model object through the gpmod setter, copy through copy()/deepcopy(); "
         "after every call the inputs are compared with their snapshot and the returned table / matrix is overwritten in place to see that no input follows; "
         "all from one PRNG; non-trivial = >= 2 taxa, >= 2 records for some taxon and a non-identity row permutation (session: >= 2 calls with a change of the configuration between them); distinct by SHA-256 of the case")
-TRUSTED = ["harness/translate/c14_kernel.py (ast -> Gallina for the 42 kernel expressions; fail closed on any other statement shape) and the entry-point audit tables COVERED / SKIPPED / PARAMS of this module",
+TRUSTED = ["harness/translate/c14_kernel.py (ast -> Gallina for the 43 kernel expressions; fail closed on any other statement shape) and the entry-point audit tables COVERED / SKIPPED / PARAMS of this module",
            "pandas DataFrame.groupby(sort=True, dropna=False).agg(mean) (modelled as sorted distinct keys + arithmetic mean, compared in tolerance regime T)",
            "numpy.random.Generator.multivariate_normal for diagonal covariance (scripted as mean + z*sqrt(var)); distributional convergence only monitored",
            "DenseBreedingValueMatrix.from_numpy/unscale round trip (property C15) within 2^-30 relative",
@@ -816,13 +816,9 @@ def _dedupe(bad):
 TP_ALIAS_CLAUSE = ("aliasing: a write into the table returned by TruePhenotyping.phenotype() changed the labels of the population "
                    "(the taxa column is the population's own array)")
 def classify(case, out, clauses):
-    """C14-join-ignores-group, C14-stale-nrep-after-nenv, C14-short-nrep-fewer-environments and C14-null-group-drops-records are
-    repaired (their witnesses are re-run as `fixed` entries of known_findings.d/C14.json).  One finding is recorded, not repaired:
-    C14-truepheno-table-shares-labels -- only for the dedicated probe cases (`alias_probe`), only when the population has explicit
-    taxa labels, and only when that clause is the ONLY failure of the case."""
-    if (case.get("kind") == "trial" and case.get("alias_probe") and case.get("taxa") is not None
-            and clauses and all(c == TP_ALIAS_CLAUSE for c in clauses)):
-        return "C14-truepheno-table-shares-labels"
+    """C14-join-ignores-group, C14-stale-nrep-after-nenv, C14-short-nrep-fewer-environments, C14-null-group-drops-records and
+    C14-truepheno-table-shares-labels are repaired (their witnesses are re-run as `fixed` entries of known_findings.d/C14.json):
+    no failure pattern is excused."""
     return None
 
 # ------------------------------------------------------------------ evidence helpers
@@ -934,8 +930,8 @@ def emit_case(case, out):
         parts.append("true_agree %s (true_rows %d taxa grp gvm)" % (E.lst([(td["taxa"][i], tg[i], [Fraction(float.fromhex(h)) for h in td["vals"][i]])
                                                                            for i in range(td["nrow"])], _trow), n))
         parts.append("sl_eqb %s (true_cols grp tnames)" % E.lst(td["cols"], E.s))
-        if "isolated" in td:                                   # aliasing probe: the model says when the table shares the population's label arrays
-            parts.append("Bool.eqb %s (negb (tp_table_shares taxa grp))" % E.b(td["isolated"]))
+        if "isolated" in td:                                   # aliasing probe: the store model says whether a write into the table reaches the population
+            parts.append("Bool.eqb %s (tp_table_isolated %d taxa)" % (E.b(td["isolated"]), n))
     tb = out["true_bv"]
     if "exc" in tb: parts.append("false")
     else:
